@@ -305,7 +305,8 @@ class Monitors:
                 self.stats["foreign" if foreign else "expired_refused"] += 1
                 why = "from a foreign address" if foreign else "for a session silent for more than 60 s"
                 for e in hans:
-                    if not (e[1] == q.src and vlib.unhx(e[6]) == b"BADIP"):
+                    # a refusal: BADIP, or BADLEN for a request too short to be looked at (the length test comes first); both change nothing
+                    if not (e[1] == q.src and vlib.unhx(e[6]) in (b"BADIP", b"BADLEN")):
                         self.bad("C04", "request naming session %d %s was not refused: answer %s to %s" % (q.user, why, vlib.unhx(e[6])[:20], e[1]))
                 if tunws or raws:
                     self.bad("C04", "request naming session %d %s had an effect (tun write / raw frame)" % (q.user, why))
